@@ -449,11 +449,67 @@ def tr_macrogrammar():
     return '\n'.join(out) + '\n'
 
 
+# ---------------------------------------------------------------------------------------------
+# writable objects with static storage duration (C18)
+# ---------------------------------------------------------------------------------------------
+def tr_statics():
+    import hashlib, tempfile, shutil
+    srcs = ['Compiler/src/ast.cpp', 'Compiler/src/parse.cpp', 'Compiler/src/gen.cpp', 'Compiler/src/compiler.cpp', 'Compiler/src/scan.cpp',
+            'Compiler/src/macro.cpp', 'Compiler/src/ParserGenerator/grammar.cpp', 'Compiler/src/ParserGenerator/lrdea.cpp', 'Compiler/src/lex.yy.c',
+            'VM/src/instr.cpp', 'VM/src/vm.cpp', 'VM/src/program.cpp']
+    h = hashlib.sha256()
+    for root in ('Compiler', 'VM'):
+        for d, _, fs in sorted(os.walk(os.path.join(REPO, root))):
+            if '/test' in d:
+                continue
+            for f in sorted(fs):
+                if f.endswith(('.cpp', '.hpp', '.h', '.c', '.l')):
+                    h.update(f.encode())
+                    h.update(open(os.path.join(d, f), 'rb').read())
+    cache = os.path.join(VERIF, '.cache', 'statics-' + h.hexdigest()[:20] + '.txt')
+    if os.path.exists(cache):
+        syms = open(cache).read().split('\n')
+    else:
+        scratch = tempfile.mkdtemp(prefix='theo-nm.', dir='/var/tmp')
+        try:
+            procs = []
+            for s_ in srcs:
+                obj = os.path.join(scratch, s_.replace('/', '_') + '.o')
+                procs.append((s_, obj, subprocess.Popen(['g++', '-x', 'c++', '-std=c++20', '-O1', '-w', '-I' + REPO, '-I' + os.path.join(REPO, 'Compiler/include'),
+                                                          '-c', os.path.join(REPO, s_), '-o', obj], stdout=subprocess.PIPE, stderr=subprocess.STDOUT)))
+            syms = []
+            for s_, obj, pr in procs:
+                out, _ = pr.communicate()
+                if pr.returncode != 0:
+                    raise TranslateError('cannot compile %s: %s' % (s_, out.decode()[-300:]))
+                r = subprocess.run(['nm', '-C', '--defined-only', obj], capture_output=True, text=True)
+                for line in r.stdout.split('\n'):
+                    m = re.match(r'^[0-9a-f]+ ([bBdD]) (.*)$', line)
+                    if not m:
+                        continue
+                    name = m.group(2)
+                    # compiler-generated: iostream init objects, guard variables, typeinfo, vtables, DW.ref, the dso handle
+                    if name.startswith(('std::', 'guard variable', 'typeinfo', 'vtable', 'DW.ref', '__dso_handle', '__gnu', 'VTT ')) or '__ioinit' in name:
+                        continue
+                    syms.append('%s:%s' % (os.path.basename(s_), name))
+            os.makedirs(os.path.dirname(cache), exist_ok=True)
+            open(cache, 'w').write('\n'.join(syms))
+        finally:
+            shutil.rmtree(scratch, ignore_errors=True)
+    syms = sorted(x for x in syms if x)
+    out = ['(* GENERATED by tools/translate.py from `nm -C` of the compiled objects — do not edit *)',
+           'From Coq Require Import String List.', 'Import ListNotations.', 'Local Open Scope string_scope.', '',
+           '(* objects with static storage duration in writable sections (nm classes b B d D), compiler-generated ones filtered out *)',
+           'Definition writable_statics : list string := [' + '; '.join('"%s"' % x.replace('"', "'") for x in syms) + '].', '']
+    return '\n'.join(out) + '\n'
+
+
 TRANSLATORS = {
     'Gen_Lexer.v': tr_lexer,
     'Gen_Enums.v': tr_enums,
     'Gen_Consts.v': tr_consts,
     'Gen_MacroGrammar.v': tr_macrogrammar,
+    'Gen_Statics.v': tr_statics,
 }
 
 
